@@ -19,6 +19,7 @@ import vlib
 from vlib import qlit, ostr, flit, fme
 from props import c01
 
+EXTRA_TARGETS = ['Iso/IsoShow.vo']
 MANIFEST = dict(
     text="Machine-checked (Coq 8.16) theorems about the model GENERATED on every run from convert / convert_pressure / convert_loading / "
          "convert_material / convert_temperature (pointisotherm.py, baseisotherm.py) on top of the generated converters of C01: exact single-step "
@@ -291,7 +292,7 @@ def classify(init, call, pre, post, outcome, kind):
 
 
 def run(rep, tier, seed):
-    proofs_ok = vlib.standard_proof_phase(rep, 'C02', extra_targets=['Iso/IsoShow.vo'])
+    proofs_ok = vlib.standard_proof_phase(rep, 'C02', extra_targets=EXTRA_TARGETS)
     explore(rep, tier, seed)
     if rep.broken and not rep.violations and tier != 'thorough':
         explore(rep, 'thorough', seed + 1)
